@@ -23,29 +23,29 @@ func init() {
 
 	register(&core.Rule{ID: "C09.1", Prop: "C09", MinSites: 3,
 		Desc: "grow contract: the capacity requested from grow() is a sum containing rb.size or rb.Buffered() plus a positive term",
-		Run: runC09_1})
+		Run:  runC09_1})
 	register(&core.Rule{ID: "C09.2", Prop: "C09", MinSites: 6,
 		Desc: "producer destination: copy/Read into rb.buf starts at rb.w, or at 0 only after an exact fill of the tail segment (src[:size-w]) or under an established rb.w == 0",
-		Run: runC09_2})
+		Run:  runC09_2})
 	register(&core.Rule{ID: "C09.3", Prop: "C09", MinSites: 5,
 		Desc: "isEmpty = false only where a positive number of written bytes is established on every path",
-		Run: runC09_3})
+		Run:  runC09_3})
 	register(&core.Rule{ID: "C09.4", Prop: "C09", MinSites: 5,
 		Desc: "reset-on-drain: after an advance of rb.r every return is preceded by the rb.r == rb.w test whose true edge calls Reset()",
-		Run: runC09_4})
+		Run:  runC09_4})
 	register(&core.Rule{ID: "C09.6", Prop: "C09", MinSites: 3,
 		Desc: "split-copy continuity: when a transfer is split at the physical end of the ring, the second piece continues exactly where the first ended (offset = size - cursor, the length of the first piece; remaining = total - that length)",
-		Run: runC09_6})
+		Run:  runC09_6})
 	register(&core.Rule{ID: "C09.5", Prop: "C09", MinSites: 12,
 		Desc: "observers (Peek, peekAll, Bytes, Buffered, Available, Len, Cap, IsEmpty, IsFull) write no Buffer field; rb.r is written only by read-type operations, rb.w only by write-type ones",
-		Run: runC09_5})
+		Run:  runC09_5})
 }
 
 type ringAnch struct {
-	pk                          string
-	buf, size, r, w, isEmpty    *types.Var
-	grow, reset, buffered       *types.Func
-	funcs                       []*fn
+	pk                       string
+	buf, size, r, w, isEmpty *types.Var
+	grow, reset, buffered    *types.Func
+	funcs                    []*fn
 }
 
 func ringAnchors(c *core.Ctx) *ringAnch {
@@ -574,8 +574,8 @@ func runC09_6(c *core.Ctx) {
 	}
 	for _, f := range a.funcs {
 		// variables defined as rb.size - rb.<cursor>
-		firstLen := map[types.Object]*types.Var{} // var -> cursor field
-		remDef := map[types.Object]types.Object{} // c2 -> K1 where c2 := T - K1
+		firstLen := map[types.Object]*types.Var{}   // var -> cursor field
+		remDef := map[types.Object]types.Object{}   // c2 -> K1 where c2 := T - K1
 		remTotal := map[types.Object]types.Object{} // c2 -> T
 		// the total of a split transfer: T in the wrap test `rb.r + T <= rb.size`
 		var total types.Object
